@@ -132,9 +132,14 @@ impl<'a> RefCtx<'a> {
         if self.world.preimages.contains(&id) {
             sd.sat.push(Wit::one(Item::Pre(id)));
         }
-        sd.dis.push(Wit::one(Item::Zero32));
-        if self.world.adversarial {
-            sd.dis.push(Wit::one(Item::Junk32).noncanon());
+        if self.uni.hashes[id].psbt_value == [0u8; 32] {
+            // 32 zero bytes are the secret: they satisfy, they do not dissatisfy
+            sd.dis.push(Wit::one(Item::Junk32));
+        } else {
+            sd.dis.push(Wit::one(Item::Zero32));
+            if self.world.adversarial {
+                sd.dis.push(Wit::one(Item::Junk32).noncanon());
+            }
         }
         sd
     }
